@@ -25,8 +25,14 @@ InQ(e) == IF e.nm = 2 THEN <<e.q1, e.q2>> ELSE <<e.q1>>
 InQuantifier(e) == \A k \in DOMAIN InQ(e) : \A i \in DOMAIN InQ(e)[k] : InQ(e)[k][i] \in 33 .. 84   \* qualities 0..51
 
 DemuxVerdict(e) ==
-    IF ~ e.acc THEN "ok"                                   \* not accepted: outside the statement
-    ELSE IF e.s \notin Strategies THEN "ok"                \* no layout pinned for it: reported as a note
+    IF e.s \notin Strategies THEN "ok"                     \* no layout pinned for it: reported as a note
+    \* a crash (anything but NonMultiplexable) on a pair with a record count the table lists is not a refusal: the strategy
+    \* neither rejected the pair nor produced the records the layout prescribes
+    \* (calls with probe=True are exempt: the loader discards ANY exception of a probing call - `if probe: continue`)
+    ELSE IF ~ e.acc /\ e.raised \notin {"", "NonMultiplexable"} /\ InQuantifier(e) /\ (\E i \in DOMAIN L[e.s] : e.nm \in L[e.s][i].mates)
+            /\ ~ ("call" \in DOMAIN e /\ e.call.probe = "True")
+         THEN "result_raised_" \o e.raised
+    ELSE IF ~ e.acc THEN "ok"                              \* refused: outside the statement
     ELSE IF ~ InQuantifier(e) THEN "ok"
     ELSE IF e.shape # "" THEN "result_is_not_a_list_of_records"
     ELSE LET v == StrategyVerdict(e.s, InR(e), InQ(e), e.out, Enc, Comp, IsT) IN
@@ -51,7 +57,7 @@ Notes(ln, e) ==
                                                    \o p.s \o "/" \o ToString(p.branch) \o " whitelist=" \o p.wl \o " entries=" \o ToString(p.wl_n))
       [] e.ev = "demux" ->
             IF e.acc /\ ~ InQuantifier(e) THEN Note(ln, e.tid, "outside_quantifier quality>51")
-            ELSE IF ~ e.acc /\ e.raised \notin {"NonMultiplexable", "IndexError"} THEN Note(ln, e.tid, "raised_" \o e.raised \o " " \o e.s)
+            ELSE IF ~ e.acc /\ e.raised \notin {"", "NonMultiplexable", "IndexError"} THEN Note(ln, e.tid, "raised_" \o e.raised \o " " \o e.s)
             ELSE TRUE
       [] OTHER -> TRUE
 
